@@ -5,6 +5,7 @@ import (
 	"fmt"
 	"sort"
 	"sync/atomic"
+	"time"
 
 	"github.com/cuteLittleDevil/go-jt808/attachment"
 	"github.com/cuteLittleDevil/go-jt808/shared/consts"
@@ -63,7 +64,8 @@ type attPlan struct {
 	Cuts    []int     `json:"cuts"` // stream offsets at which a new write starts (besides 0); empty = one unit per write
 	Mode    string    `json:"partition"`
 	// Order of the units of several files: "" sequential (1211, chunks, 1212 per file); "announce-first" all 0x1211 up front;
-	// "interleaved" chunks of all files round-robin, then the 0x1212s; "late-1212" the 0x1212 of a file after the next file's 0x1211
+	// "interleaved" chunks of all files round-robin, then the 0x1212s; "late-1212" the 0x1212 of a file after the next file's 0x1211;
+	// "crossed-1212" resends of one file followed by another incomplete file's 0x1212 and only then the file's own
 	Order string `json:"order,omitempty"`
 }
 
@@ -179,6 +181,35 @@ func attBuild(p *attPlan) *attBuilt {
 		}
 		for i := range p.Files {
 			resend(i)
+		}
+	case "crossed-1212":
+		// every file announced, sent and asked about once; then, file by file, the missing chunks are resent and — right before
+		// that file's own second completion request — ANOTHER still-incomplete file is asked about again (no chunk in between)
+		for i := range p.Files {
+			c1211(i)
+		}
+		for i, f := range p.Files {
+			for _, c := range f.Chunks {
+				chunk(i, c)
+			}
+		}
+		for i := range p.Files {
+			c1212(i)
+		}
+		var pending []int
+		for i := range p.Files {
+			if len(p.Files[i].Resend) > 0 {
+				pending = append(pending, i)
+			}
+		}
+		for k, i := range pending {
+			for _, c := range p.Files[i].Resend {
+				chunk(i, c)
+			}
+			if k+1 < len(pending) {
+				c1212(pending[k+1])
+			}
+			c1212(i)
 		}
 	case "late-1212":
 		for i, f := range p.Files {
@@ -451,7 +482,7 @@ func attGenPlan(g gen.G, idx int, gaps bool) *attPlan {
 	}
 	budget := 1023 - 30 - 40 - 32 - 2 - 4*45 // what the 0x1210 body can spend on names beyond four short ones
 	if nf > 1 {
-		p.Order = core.Pick(g.Rand, []string{"", "", "announce-first", "interleaved", "late-1212"})
+		p.Order = core.Pick(g.Rand, []string{"", "", "announce-first", "interleaved", "late-1212", "crossed-1212"})
 	}
 	for i := 0; i < nf; i++ {
 		cs := 1 + g.Intn(4096)
@@ -596,6 +627,7 @@ func attPartition(g gen.G, p *attPlan, mode int) {
 func c15Worker(c *core.Collector, x *Ctx) {
 	c.Rule = "upload sessions: 1-4 files, sizes 1 B..3 chunk sizes (chunk 1..4096), names / alarm IDs / terminal IDs / phone over arbitrary bytes incl. the marker 30 31 63 64, chunk orders in-order/reversed/shuffled with identical resends, all five dialects (HLJ length-prefixed header, names up to 200 B), " +
 		"partitions: one unit per write, neighbours coalesced (control frame + chunk), random cuts, cuts inside every chunk header, a unit together with the first k bytes of the next chunk header (k around every header field boundary), single write; ALL 1-cuts of short sessions. evaluation = one session; distinct by hash of (plan, partition)"
+	attFullRead(c)
 	sessions := c.Counter("sessions")
 	tcpSessions := c.Counter("tcp_sessions")
 	addr, terr := att.StartTCP(attachment.WithFileEventerFunc(func() attachment.FileEventer { return &att.Recorder{} }))
@@ -659,4 +691,53 @@ func c15Worker(c *core.Collector, x *Ctx) {
 	})
 	c.Exh = true
 	c.Floor("sessions", 500)
+}
+
+// attFullRead: sessions whose bytes up to and including a control frame the terminal waits on fill the server's read buffer
+// EXACTLY (k x 100 KiB in one write over net.Pipe, i.e. one or more completely full reads and nothing behind them). The replies
+// must arrive without further input; decided on relative timing (quiet for 1.5 s, then prompt after the next write = withheld).
+func attFullRead(c *core.Collector) {
+	const bufSize = 100 * 1024
+	for _, total := range []int{bufSize} {
+		for variant := 0; variant < 3; variant++ {
+			p := &attPlan{Kind: "att", Dialect: int(consts.ActiveSafetyJS), Phone: "000013800001", TermID: core.Hex([]byte("T1")), AlarmID: core.Hex([]byte("alarm")), Serial0: 1, Gen: "full-read"}
+			name := []byte(fmt.Sprintf("full%d.bin", variant))
+			cs := []int{4000, 16000, 60000}[variant]
+			size := total - 800 // first guess; corrected below until the stream prefix has the wanted length
+			var b *attBuilt
+			cut := -1
+			for iter := 0; iter < 8; iter++ {
+				var chunks [][2]int
+				for off := 0; off < size; off += cs {
+					chunks = append(chunks, [2]int{off, min(cs, size-off)})
+				}
+				p.Files = []attFile{{Name: core.Hex(name), Size: size, ContSd: 7, Chunks: chunks}}
+				b = attBuild(p)
+				// end of the file's 0x1212 = last control unit before the sentinel
+				cut = b.ends[len(b.ends)-2]
+				if cut == total {
+					break
+				}
+				size += total - cut
+			}
+			if cut != total || b == nil {
+				c.Count("full_read_sessions_not_constructible", 1)
+				continue
+			}
+			want := len(b.expect) - 1 // every reply but the sentinel's
+			before, tot, delay, to := att.RunPipeStaged(consts.ActiveSafetyJS, b.stream[:cut], b.stream[cut:], want, 1500*time.Millisecond)
+			c.Eval()
+			switch {
+			case to:
+				c.Inconclusive()
+			case before >= want:
+				c.Count("full_read_sessions_answered_without_further_input", 1)
+			case tot >= want+1 && delay < 150*time.Millisecond:
+				c.Violate("reply|replies withheld until further input after a read that filled the server's buffer exactly", fmt.Sprintf("%d bytes in one write ending with the file's 0x1212: %d of %d replies during 1.5 s of silence, the rest %v after the next frame was sent", cut, before, want, delay.Round(time.Millisecond)), map[string]any{"burst_bytes": cut, "file_size": size, "chunk": cs})
+			default:
+				c.Inconclusive()
+			}
+		}
+	}
+	c.Floor("full_read_sessions_answered_without_further_input", 2)
 }
